@@ -9,7 +9,7 @@ import vrun
 from props import _nfamily
 from common import cerberus
 
-LEVEL = "proof"
+LEVEL = "exploration"
 COQ_FILES = ["theories/Model/Normalize.v"]
 FACT_GROUPS = ["F11", "F6"]
 ALLOWED_AXIOMS = []
